@@ -20,7 +20,7 @@ IND = ['IndicatorLinConLE', 'IndicatorLinConEQ', 'IndicatorLinConGE',
 OTHER = ['LinearFunctionalConstraint', 'QuadraticFunctionalConstraint', 'SOS1Constraint', 'SOS2Constraint']
 ALLTYPES = LIN + QUAD + FUNC + COND + IND + OTHER
 
-HOSTILE = ['q"uote', 'back\\slash', 'tab\there', 'ctl\x01x', 'end\\', '"', 'a\\"b', 'nl\\n', 'u\\u0041']
+HOSTILE = ['q"uote', 'back\\slash', 'tab\there', 'ctl\x01x', 'end\\', '"', 'a\\"b', 'nl\\n', 'u\\u0041', 'cr\rx', 'ff\x0cx', 'del\x7f']
 UNICODE = ['café', 'αβ', 'x→y', '\U0001F600v']
 EXTREME = [F(10) ** 30, F(10) ** 300, F(1, 10 ** 6), F(123456789, 1000), -F(10) ** 25, F(1, 2 ** 40), F(3, 7)]
 
@@ -85,11 +85,23 @@ def num_expr(r, nv, depth, extreme, feats):
     if k == 5:
         feats.add('count'); return ('count', [log_expr(r, nv, depth - 1, extreme, feats) for _ in range(r.rint(2, 3))])
     if k == 6:
-        feats.add('numberof'); return ('numberof', ('n', F(r.rint(0, 3))), [('v', r.below(nv)) for _ in range(r.rint(2, 3))])
+        feats.add('numberof')
+        if r.chance(1, 3):
+            feats.add('numberof_var')
+            return ('numberof', ('v', r.below(nv)), [('v', r.below(nv)) for _ in range(r.rint(2, 3))])
+        return ('numberof', ('n', F(r.rint(0, 3))), [('v', r.below(nv)) for _ in range(r.rint(2, 3))])
     if k == 7:
         feats.add('pow'); return ('pow', ('v', r.below(nv)), ('n', F(r.choice([2, 3, 4]))))
     if k == 8:
-        feats.add('exp'); return (r.choice(['exp', 'log', 'sin', 'cos']), ('v', r.below(nv)))
+        feats.add('exp')
+        if r.chance(1, 2):
+            f = r.choice(['tan', 'asin', 'acos', 'atan', 'sinh', 'cosh', 'tanh', 'asinh', 'acosh', 'atanh', 'log10', 'sqrt'])
+            feats.add('fn_' + f)
+            return (f, ('v', r.below(nv)))
+        if r.chance(1, 4):
+            feats.add('expA')           # constant base ^ variable, log of base 10 etc.
+            return ('pow', ('n', F(r.choice([2, 3, 10]))), ('v', r.below(nv)))
+        return (r.choice(['exp', 'log', 'sin', 'cos']), ('v', r.below(nv)))
     if k == 9:
         feats.add('pl')
         n = r.rint(2, 4)
@@ -134,7 +146,7 @@ def log_expr(r, nv, depth, extreme, feats):
         feats.add('cmp_nl')
         return (r.choice(['le', 'ge', 'eq']), num_expr(r, nv, depth - 1, extreme, feats), ('n', small(r)))
     feats.add('quadcmp')
-    return (r.choice(['le', 'ge']), ('*', ('v', r.below(nv)), ('v', r.below(nv))), ('n', small(r)))
+    return (r.choice(['le', 'ge', 'lt', 'gt', 'eq']), ('*', ('v', r.below(nv)), ('v', r.below(nv))), ('n', small(r)))
 
 
 def make_names(r, mode, n, prefix):
@@ -146,6 +158,8 @@ def make_names(r, mode, n, prefix):
             base = base + r.choice(HOSTILE)
         elif mode == 'unicode' and r.chance(1, 2):
             base = base + r.choice(UNICODE)
+        elif mode == 'latin1' and r.chance(1, 2):
+            base = base + r.choice(['caf\u00e9', '\u00f1', '\u00fc\u00df'])
         elif mode == 'benign' and r.chance(1, 4):
             base = base + r.choice(['[1]', "['a','b']", '_x', '.y', ' z', '{k}', ':c'])
         out.append(base)
@@ -232,7 +246,7 @@ def gen_accept(r):
 
 
 # ------------------------------------------------------------------ conic family
-CONES = ['QuadraticConeConstraint', 'RotatedQuadraticConeConstraint']
+CONES = ['QuadraticConeConstraint', 'RotatedQuadraticConeConstraint', 'ExponentialConeConstraint']
 
 
 def sq(j):
@@ -278,8 +292,14 @@ def gen_conic_model(r, names='benign'):
     ncone = r.choice([0, 1, 1, 1, 2])
     cnames = make_names(r, names, ncone + 2, 'c')
     for k in range(ncone):
-        kind = r.below(4)
+        kind = r.below(5)
         others = [j for j in range(nv)]
+        if kind == 4:                      # exponential cone: exp(x) <= z
+            z = r.choice(nn)
+            x = r.choice([j for j in others if j != z])
+            m.con(None, F(0), {z: F(-1)}, nl=('exp', ('v', x)), name=cnames[k])
+            feats.add('expcone')
+            continue
         if kind == 0:                      # standard SOC: sum c_i x_i^2 <= c_z z^2
             z = r.choice(nn)
             xs = [j for j in others if j != z]
@@ -352,3 +372,101 @@ def gen_conic_config(r):
     if k < 3:
         opts.append('cvt:socp2qc=%d' % k)
     return acc, opts
+
+
+# ------------------------------------------------------------------ round 3: defined variables, SOS suffixes, complementarity rows
+def add_defvars(r, m, feats, extreme=False):
+    """1..3 common expressions (V segments), used in constraints, objectives and logical constraints"""
+    nv = len(m.vars)
+    ndv = r.rint(1, 3)
+    for k in range(ndv):
+        nl = None
+        kk = r.below(4)
+        if kk == 0:
+            nl = ('abs', ('v', r.below(nv)))
+        elif kk == 1:
+            nl = ('*', ('v', r.below(nv)), ('v', r.below(nv)))
+        elif kk == 2 and k > 0:
+            nl = ('+', ('dv', r.below(k)), ('n', small(r)))          # a defined variable using an earlier one
+        m.defvars.append({'lin': lin_expr(r, nv, extreme, k=r.rint(1, min(2, nv))) if (nl is None or r.chance(1, 2)) else {}, 'nl': nl})
+    feats.add('defvar')
+    used = 0
+    for c in m.cons:
+        if r.chance(1, 2):
+            dv = ('dv', r.below(ndv))
+            c['nl'] = dv if c['nl'] is None else ('+', c['nl'], dv)
+            used += 1
+    for o in m.objs:
+        if r.chance(1, 2):
+            dv = ('*', ('n', F(r.rint(1, 3))), ('dv', r.below(ndv)))
+            o['nl'] = dv if o['nl'] is None else ('+', o['nl'], dv)
+            used += 1
+    if r.chance(1, 2) or not used:
+        m.lcon((r.choice(['le', 'ge']), ('dv', r.below(ndv)), ('n', small(r))), name='lcdv')
+        feats.add('defvar_in_logical')
+    if r.chance(1, 4):
+        feats.add('defvar_unused')
+        m.defvars.append({'lin': {0: F(1)}, 'nl': None})     # never referenced
+
+
+def add_sos(r, m, feats):
+    """SOS1/SOS2 sets through the .sosno/.ref suffixes (bounded variables, so that a MIP conversion exists)"""
+    nv = len(m.vars)
+    sosno, ref = {}, {}
+    free = list(range(nv))
+    nset = r.rint(1, 2)
+    for k in range(nset):
+        if len(free) < 2:
+            break
+        sz = r.rint(2, min(4, len(free)))
+        grp, free = free[:sz], free[sz:]
+        typ = r.choice([1, 2])
+        feats.add('sos%d' % typ)
+        for w, j in enumerate(grp):
+            sosno[j] = (k + 1) if typ == 1 else -(k + 1)
+            ref[j] = F(w + 1) if r.chance(4, 5) else F(r.rint(1, 9))
+            if m.vars[j]['lb'] is None:
+                m.vars[j]['lb'] = F(0)
+            if m.vars[j]['ub'] is None:
+                m.vars[j]['ub'] = F(r.rint(2, 9))
+    m.suffixes.append({'name': 'sosno', 'kind': 0, 'float': False, 'vals': sosno})
+    m.suffixes.append({'name': 'ref', 'kind': 0, 'float': True, 'vals': ref})
+
+
+def add_compl(r, m, feats):
+    """a complementarity row  expr >= 0  complements  x >= 0  (linear or quadratic body)"""
+    nv = len(m.vars)
+    j = r.below(nv)
+    m.vars[j]['lb'], m.vars[j]['int'] = F(0), False
+    if m.vars[j]['ub'] is not None and r.chance(1, 2):
+        m.vars[j]['ub'] = None
+    if r.chance(1, 3):
+        m.con(F(0), None, lin_expr(r, nv, False), nl=('*', ('v', r.below(nv)), ('v', r.below(nv))), name='ccq')
+        feats.add('compl_quad')
+    else:
+        m.con(F(0), None, lin_expr(r, nv, False), name='ccl')
+        feats.add('compl_lin')
+    m.cons[-1]['compl'] = (j, 2)
+
+
+def gen_special_model(r, names='benign'):
+    """-> (Model, feats, accept, options)"""
+    m, feats = gen_model(r, size='small', extreme=r.chance(1, 5), infinite=False, names=names)
+    acc = gen_accept(r)
+    opts = ['cvt:bigM=1e5']
+    k = r.below(7)
+    if k in (0, 1, 2, 6):
+        add_defvars(r, m, feats)
+    if k in (2, 3, 4):
+        add_sos(r, m, feats)
+        if acc not in (None, 'ALL') or r.chance(1, 2):
+            base = list(LIN) if acc in (None, 'ALL') else acc
+            acc = base + [t for t in ('SOS1Constraint', 'SOS2Constraint') if r.chance(2, 3) and t not in base]
+        if r.chance(1, 4):
+            opts.append(r.choice(['cvt:sos=0', 'cvt:sos2=0']))
+    if k in (4, 5, 6):
+        add_compl(r, m, feats)
+        base = list(LIN) if acc is None else acc
+        if base != 'ALL':
+            acc = base + [t for t in ('ComplementarityLinear', 'ComplementarityQuadratic', 'QuadConRange', 'QuadConLE', 'QuadConGE', 'QuadConEQ') if t not in base]
+    return m, feats, acc, opts
